@@ -43,6 +43,10 @@ func FeedLog(ctx context.Context, l config.Log, w feeder.Witness, c *http.Client
 		if from.Size == 0 {
 			return [][]byte{}, nil
 		}
+		// tlog's tile arithmetic works on int64 and does not terminate for trees of 2^62 or more entries.
+		if to.Size >= 1<<62 {
+			return nil, fmt.Errorf("tree size %d is too large", to.Size)
+		}
 		tr := tileReader{c: sdb}
 		tree := tlog.Tree{
 			N:    int64(to.Size),
